@@ -122,3 +122,45 @@ func Harness_C09_read_with_other_key_fails() {
 	vm.Assert("C09.other_key_read_fails", rerr2 != nil && n2 <= 0)
 	r2.Close()
 }
+
+// Harness_C08_initialize_gate: with signatures on, an index rebuild in Initialize never indexes a record
+// that did not pass header verification (unsigned records appended by a plain tar writer, or a wrapper whose
+// signature the primitive rejects).
+func Harness_C08_initialize_gate() {
+	pipes := config.PipeConfig{Signature: config.SignatureFormatMinisignKey}
+	rc, wc := verifCrypto(pipes)
+	v := verifNewFSCrypto(pipes, rc, wc, vm.Bool("readOnly"), true)
+	t := v.Env.Tape
+	// a legitimately written root (signed in this run) ...
+	legit := verifNewFSCrypto(pipes, rc, wc, false, true)
+	legit.Env.Tape.Exists = false
+	_, lerr := legit.FS.Initialize("/", os.ModePerm)
+	vm.Assert("C08.setup_signed_root", lerr == nil && len(legit.Env.Tape.Segs) >= 1)
+	for _, s := range legit.Env.Tape.Segs {
+		if s.Kind == vm.SegMember {
+			t.AddMember(s.Hdr, s.HBlocks, s.Size, nil)
+		}
+	}
+	t.AddTrailer()
+	// ... followed by a record the key holder never signed
+	switch vm.Choice("forgery", 2) {
+	case 0: // plain unsigned record
+		t.AddMember(&tar.Header{Typeflag: tar.TypeReg, Name: "/forged", Format: tar.FormatUSTAR}, 1, 0, nil)
+	case 1: // wrapper with an attacker-made signature text
+		t.AddMember(&tar.Header{Typeflag: tar.TypeReg, Format: tar.FormatPAX, PAXRecords: map[string]string{
+			"STFS.EmbeddedHeader": "{\"Name\":\"/forged\"}",
+			"STFS.Signature":      vm.String("sig", 0, 1, "A!"),
+		}}, 3, 0, nil)
+	}
+	t.AddTrailer()
+	accepted := false
+	_, _ = v.FS.Initialize("/", os.ModePerm)
+	for _, ev := range vm.VerifyEvents {
+		if ev.Result && ev.Message == "{\"Name\":\"/forged\"}" {
+			accepted = true
+		}
+	}
+	for _, r := range v.Env.P.VerifRows() {
+		vm.Assert("C08.initialize_indexes_only_verified_records", !strings.Contains(r.Name, "forged") || accepted)
+	}
+}
